@@ -107,14 +107,57 @@ def run(ctx):
             nontriv += 1
         if len(samples) < 4 and gone:
             samples.append({"case": desc, "removed": gone[:6]})
+    # the temp directory is a symbolic link into a scratch area that lives among somebody else's files
+    # (placed by the administrator before the cache is opened): maintenance still works on the cache
+    # directory and on the temp dir's own content, never on the link target's neighbours.
+    # (Implementation only: the model's file system has no symbolic links.)
+    sjobs = []
+    for w, D, opl in ((("plain", 2), "w", "op 0 pset newkey V 1"), (("plain", 2), "w", "op 0 pput newkey V 1"),
+                      (("sharded", 2, 4), "w/" + G.shard_name(G.shard_ids(7, 9, 2)[0]), G.op(0, "sset", ("newkey", 7, 9), "V", 1)),
+                      (("plain", 2), "w", G.op(0, "set", ("newkey", 7, 9), "V", 1)), (("sharded", 2, 4), "w/" + G.shard_name(G.shard_ids(7, 9, 2)[0]), G.op(0, "put", ("newkey", 7, 9), "V", 1))):
+        H = G.header(w, (), "none")
+        pre = ["mkdir %s" % D, "mkdir store/scratch", "symlink %s %s/.kismet_temp" % ("/".join([".."] * (D.count("/") + 1)) + "/store/scratch", D)]
+        L = H[:-1] + pre + H[-1:]
+        for i in range(5):
+            L.append(G.plant("store/app%d" % i, "APPDATA%d" % i, mtime=G.T0 - 10**9 * (9 - i), atime=G.T0 - 10**9 * (9 - i) + (5 if i % 2 else -7)))
+        L.append("plant store/scratch/stale z 600 %d %d" % (MT.BASE - 3 * MT.HOUR, MT.BASE - 3 * MT.HOUR))
+        L.append("plant store/scratch/young z 600 %d %d" % (MT.BASE - 60 * 10**9, MT.BASE - 60 * 10**9))
+        for i in range(4):
+            L.append(G.plant("%s/f%d" % (D, i), "x", mtime=G.T0 + i, atime=G.T0 + i + (5 if i % 2 else -100)))
+        L += [G.FIRE, "snap", opl, "snap"]
+        sjobs.append(({"w": w, "D": D, "op": opl.split()[2]}, L))
+    for desc, L in sjobs:
+        try:
+            impl = S.run_impl(L, clock=(MT.BASE, 0))
+        except Exception as ex:
+            ties.append({"what": "symlinked-temp-dir run failed", "detail": repr(ex)}); continue
+        if len(impl.snaps) < 2:
+            ties.append({"what": "symlinked-temp-dir run incomplete", "detail": str(impl.results)[:300]}); continue
+        nontriv += 1
+        a = {l.split(" ")[0]: l.split(" ") for l in impl.snaps[0]}
+        b = {l.split(" ")[0]: l.split(" ") for l in impl.snaps[-1]}
+        for pth, f in a.items():
+            if pth.startswith("store/") and f[1] == "f" and not pth.startswith("store/scratch/"):
+                if pth not in b:
+                    violations.append({"what": "with %s/.kismet_temp a symbolic link to store/scratch, maintenance removed %s: a neighbour of the link's target, not an entry of the cache directory" % (desc["D"], pth),
+                                       "classification": {"kind": "foreign-removed", "via": "symlinked-temp-dir"}, "replay": {"kind": "population", "scenario": L}})
+                elif f[2:8] != b[pth][2:8]:
+                    violations.append({"what": "with %s/.kismet_temp a symbolic link to store/scratch, maintenance altered %s: %s -> %s" % (desc["D"], pth, f[2:8], b[pth][2:8]),
+                                       "classification": {"kind": "foreign-altered", "via": "symlinked-temp-dir"}, "replay": {"kind": "population", "scenario": L}})
+        if "store/scratch/young" not in b:
+            violations.append({"what": "young temporary file removed through the symbolic link", "classification": {"kind": "young-temp-removed", "via": "symlinked-temp-dir"}, "replay": {"kind": "population", "scenario": L}})
+        left = [p_ for p_ in b if p_.rsplit("/", 1)[0] == desc["D"] and b[p_][1] == "f" and not p_.rsplit("/", 1)[1].startswith(".")]
+        if len(left) > 3:
+            violations.append({"what": "with %s/.kismet_temp a symbolic link, maintenance did not prune the cache directory: %d entries left for capacity 2" % (desc["D"], len(left)),
+                               "classification": {"kind": "cache-not-pruned", "via": "symlinked-temp-dir"}, "replay": {"kind": "population", "scenario": L, "left": sorted(left)}})
     seen, uniq = set(), []
     for v in violations:
         k = tuple(sorted(v["classification"].items()))
         if k not in seen:
             seen.add(k); uniq.append(v)
     cov = {"evaluations": len(res), "distinct_nontrivial": nontriv,
-           "rule": "random directory populations mixing key-named files (tied modification times, read marks), dot-prefixed application files, sub-directories with content, .kismet_temp contents aged limit +- {1 ns, 1 s, 10 s} and exactly the limit under a scripted clock, nested directories inside the temp dir (including an old one holding young files named like stale siblings, and an old empty one), every capacity 0..n+1, plain set/put and sharded set with maintenance firing: everything that disappears must be a key-named file of the directory or a stale file directly in its temp dir; stale temp files must go, young ones stay; nothing else may change. Non-trivial = something was removed.",
-           "samples": samples, "traces_validated_against_impl": agree}
+           "rule": "random directory populations mixing key-named files (tied modification times, read marks), dot-prefixed application files, sub-directories with content, .kismet_temp contents aged limit +- {1 ns, 1 s, 10 s} and exactly the limit under a scripted clock, nested directories inside the temp dir (including an old one holding young files named like stale siblings, and an old empty one), every capacity 0..n+1, plain set/put and sharded set with maintenance firing: everything that disappears must be a key-named file of the directory or a stale file directly in its temp dir; stale temp files must go, young ones stay; nothing else may change. Plus (implementation only) cache directories whose .kismet_temp is a symbolic link into a scratch area among somebody else's files: the neighbours of the link's target are untouched and the cache directory itself is pruned. Non-trivial = something was removed.",
+           "samples": samples, "traces_validated_against_impl": agree, "symlinked_temp_dir_runs": len(sjobs)}
     if not ctx.quick():
         rc, o = C.coqchk(PROPS)
         cov["coqchk"] = o[-600:]
